@@ -231,6 +231,19 @@ def run(chk):
                 chk.case(key=(json.dumps(pat), fmt, tol, rep), nontrivial=bool(nontrivial))
                 chk.traces_validated += 1
                 n += 1
+    # sharing GRAPHS over more glyphs: two groups of glyphs that become one through a late glyph containing copies of
+    # both (the document grouping of OT-SVG is a union-find over glyphs; the COLR cache is global)
+    merges = [[[1], [1], [2], [2, 1]], [[1], [2], [1], [2, 1]], [[1], [1], [2], [2], [1, 2]], [[1, 2], [3], [3, 1], [2]],
+              [[1], [2], [3], [1, 2], [3, 2]], [[1], [1], [2], [2], [3], [3, 1, 2]]]
+    rm = common.rng("C19", "merge")
+    for k in range(len(merges) if quick else 120):
+        pat = merges[k] if k < len(merges) else [[rm.randrange(1, 4) for _ in range(rm.randrange(1, 3))] for _ in range(rm.randrange(4, 7))]
+        r = common.rng("C19", "merge", k)
+        glyphs = isometric_scenario(r, pat, quarter_turns=(k % 2 == 1))
+        for fmt in (["picosvg"] if quick else FORMATS):
+            nontrivial = check_one(chk, glyphs, pat, fmt, 0.1, f"merge pattern {k}", {"seed": [chk.seed, "merge", k]})
+            chk.case(key=("merge", json.dumps(pat), fmt), nontrivial=bool(nontrivial))
+            chk.traces_validated += 1
     chk.sample({"pattern": patterns[0], "formats": FORMATS})
     chk.assumptions += ["'congruent' = images under isometries generated with float arithmetic and written with 4 decimals"]
 
